@@ -56,3 +56,14 @@ func (t T) readOnly() int {
 	}
 	return n
 }
+
+// the in-place filter on a slice parameter: overwrites the caller's elements
+func dedupe(items []string) []string {
+	out := items[:0]
+	for _, it := range items {
+		if it != "" {
+			out = append(out, it)
+		}
+	}
+	return out
+}
